@@ -13,20 +13,21 @@ if os.path.abspath(patch) != os.path.abspath(os.path.join(dst, "patch.diff")):
     n = os.path.join(os.path.dirname(patch), "notes.txt")
     if os.path.exists(n):
         shutil.copy(n, os.path.join(dst, "notes.txt"))
-assert subprocess.run("git -C /repo status --porcelain", shell=True, capture_output=True, text=True).stdout.strip() == "", "/repo not clean"
-r = subprocess.run(f"git -C /repo apply {dst}/patch.diff", shell=True, capture_output=True, text=True)
+R = os.environ.get("VP_EVAL_REPO", "/repo")  # a clean worktree of /repo's HEAD to mutate instead (parallel queues)
+assert subprocess.run(f"git -C {R} status --porcelain", shell=True, capture_output=True, text=True).stdout.strip() == "", f"{R} not clean"
+r = subprocess.run(f"git -C {R} apply {dst}/patch.diff", shell=True, capture_output=True, text=True)
 meta = {"id": sid, "patch_applies": r.returncode == 0, "results": {}}
 try:
     if r.returncode == 0:
-        b = subprocess.run("cd /repo && GOFLAGS=-mod=mod GOPROXY=off go build ./...", shell=True, capture_output=True, text=True)
+        b = subprocess.run(f"cd {R} && GOFLAGS=-mod=mod GOPROXY=off go build ./...", shell=True, capture_output=True, text=True)
         meta["builds"] = b.returncode == 0
         for p in props:
             t0 = time.time()
-            c = subprocess.run(f"cd /verif && ./check {p} {tier} -noevidence", shell=True, capture_output=True, text=True)
+            c = subprocess.run(f"cd /verif && ./check {p} {tier} -noevidence" + ("" if R == "/repo" else f" -repo {R}"), shell=True, capture_output=True, text=True)
             lines = [l for l in (c.stdout + c.stderr).splitlines() if any(k in l for k in ("VIOLATION", "violation:", "MACHINERY", "UNCONFIRMED", "engine-error", "unsupported", "KNOWN-FINDING"))]
             meta["results"][p] = {"exit": c.returncode, "wall_s": round(time.time() - t0, 1), "lines": [l[:400] for l in lines[:8]]}
 finally:
-    subprocess.run("git -C /repo checkout -- . && git -C /repo clean -fdq", shell=True)
+    subprocess.run(f"git -C {R} checkout -- . && git -C {R} clean -fdq", shell=True)
 meta["quiet"] = meta.get("builds", False) and all(v["exit"] == 0 and not any("unsupported" in l or "engine-error" in l for l in v["lines"]) for v in meta["results"].values())
 json.dump(meta, open(os.path.join(dst, "meta.json"), "w"), indent=1)
 print(json.dumps({"id": sid, "quiet": meta["quiet"], "exits": {p: v["exit"] for p, v in meta["results"].items()}}), [l for v in meta["results"].values() for l in v["lines"]][:6])
